@@ -109,7 +109,8 @@ RULE = (
     "7-node exact differentiation stencil (terms are polynomials of degree <= 6 in each parameter) and, for the "
     "ODE loss, with the gradient of the exact polynomial P.  non-trivial = every (term, group-of-its-view) all-true "
     "gradient is non-zero and the case contains specifications with different read-back masks; distinct = "
-    "distinct case dicts")
+    "distinct case dicts"
+        " Plus two probe flavours judged on the implementation alone (no model): singular (a non-finite derivative of an unselected pair must contribute exactly 0) and parameter-batch (every term's gradient under every specification against the all-selecting one).")
 ASSUMPTIONS = [
     "JAX AD contract: the differential of each loss term is linear in the tangent; stop_gradient is the identity "
     "on values and zero on tangents (the model is parameterised by the per-term differential tables measured on "
